@@ -235,7 +235,7 @@ def check(prop, tier, seed):
     longs = list(corpus) + [random_source(rng, corpus) for _ in range(400 if tier == "quick" else 6000)]
     # one-dimension scale: very long single tokens and runs (identifier, terminal identifier, attribute with nested brackets
     # and multi-byte text, comment, whitespace run, digits after an identifier start), alone and inside a small file
-    n = 1200 if tier == "quick" else 20000
+    n = 1200 if tier == "quick" else 5000
     giants = ["a" * n, "$" + "Z9_" * (n // 3), "#[" + "a(é[€{😀}])" * (n // 10) + "]", "// " + "é€😀 " * (n // 4), " \t\u00a0\u3000\u2003" * (n // 5),
               "_" * n, "x" + "0123456789" * (n // 10), "#[" + "(" * n + ")" * n + "]", "#[" + "(" * n, ":" * n, "start" * (n // 5)]
     longs += giants + ["start S\n" + g + "\nstruct S { a: $A }\nterminal T { $A: () }\n" for g in giants[:5]]
